@@ -80,6 +80,11 @@ func RewriteClause(decls map[ast.PredicateSym]*ast.Decl, clause ast.Clause) ast.
 			negVars := make(map[ast.Variable]bool)
 			ast.AddVars(p, negVars)
 			for v := range negVars {
+				// A wildcard never gets a value: it is read existentially when the
+				// negated atom is evaluated and must not delay it.
+				if v.Symbol == "_" {
+					continue
+				}
 				if boundVars.Find(v) == -1 {
 					varToBind[v] = true
 				}
@@ -91,29 +96,28 @@ func RewriteClause(decls map[ast.PredicateSym]*ast.Decl, clause ast.Clause) ast.
 			}
 		}
 		if !needsDelay {
-			var toRemove []int
 			premises = append(premises, p)
+			// Re-insert every delayed negated atom whose variables are bound by now,
+			// keep the others delayed (in their original order).
+			var stillDelayedNegAtom []ast.Term
+			var stillDelayedVars []map[ast.Variable]bool
 		delayTerms:
 			for i, vars := range delayVars {
 				for v := range vars {
 					if boundVars.Find(v) == -1 {
+						stillDelayedNegAtom = append(stillDelayedNegAtom, delayNegAtom[i])
+						stillDelayedVars = append(stillDelayedVars, vars)
 						continue delayTerms
 					}
 				}
 				premises = append(premises, delayNegAtom[i])
-				toRemove = append([]int{i}, toRemove...)
 			}
-			for i := range toRemove {
-				negAtomTail := []ast.Term{}
-				varsTail := []map[ast.Variable]bool{}
-				if i+1 < len(delayNegAtom) {
-					negAtomTail = delayNegAtom[i+1:]
-					varsTail = delayVars[i+1:]
-				}
-				delayNegAtom = append(delayNegAtom[:i], negAtomTail...)
-				delayVars = append(delayVars[:i], varsTail...)
-			}
+			delayNegAtom = stillDelayedNegAtom
+			delayVars = stillDelayedVars
 		}
 	}
+	// A negated atom whose variables are never bound stays in the clause, so that
+	// CheckRule sees it and rejects the clause instead of the atom being dropped.
+	premises = append(premises, delayNegAtom...)
 	return ast.Clause{Head: clause.Head, HeadTime: clause.HeadTime, Premises: premises, Transform: clause.Transform}
 }
